@@ -209,6 +209,7 @@ pub struct Installed {
     pub times: Option<(usize, &'static AtomicUsize)>,
 }
 
+#[cfg(feature = "ccv")]
 fn reset(v: &CallCountVerifier) -> Option<&'static AtomicUsize> {
     // the harness zeroes the counter itself so that the verdicts of C02/C05/C12/C17 do not depend on C07
     if let CallCountVerifier::WithCount { counter, .. } = v {
@@ -218,6 +219,12 @@ fn reset(v: &CallCountVerifier) -> Option<&'static AtomicUsize> {
         None
     }
 }
+#[cfg(not(feature = "ccv"))]
+fn reset(_v: &CallCountVerifier) -> Option<&'static AtomicUsize> {
+    None
+}
+/// whether the call counter of a `times:` fake can be read (see Cargo.toml, feature `ccv`)
+pub const HAVE_CCV: bool = cfg!(feature = "ccv");
 
 /// kinds a family supports
 pub fn kinds_of(f: Fam) -> &'static [Kind] {
